@@ -26,6 +26,8 @@ def run(ctx):
     _RR3.hit_from_record(ctx, "R06.i")
     from . import r_word as _RW2
     _RW2.no_shadowed_defaults(ctx, "R06.j")
+    from . import r_trigram as _RT5
+    _RT5.candidate_returns(ctx, "R06.d")
     return info("R06.j: no impl overrides a provided method of the crate's traits (Word::len / dist / is_function, LimitSort). R06.i: a hit copies id, title and rating of its record unchanged (no narrowing of the rating on the way). R06.h: set_limit really stores the limit on every call (the registry API is not exercised by the repository's tests). R06.a: the bounded selection truncates to its limit field only directly after a sort, finishes with sort -> "
                 "truncate(limit) -> reverse before the first pop under the done flag, forwards (x, y) to the user comparator in "
                 "order; the limit is self.limit at every selection site; the search pipeline is ixs -> hit -> score -> "
